@@ -304,7 +304,7 @@ class Check:
                 self.transitions += v["events"]
                 self.cov.setdefault("traces", []).append(dict(label=lab, events=v["events"], mismatches=len(v["bad"]), tlc_wall_s=round(v["wall_s"], 1)))
                 for b in v["bad"]:
-                    self.add_violation("%s %s line %s" % (lab, b.get("op"), b.get("line")), dict(label=lab, trace=tp, mismatch=b, script=(script_of or {}).get(lab)))
+                    self.add_violation("%s %s line %s" % (lab, b.get("op"), b.get("line")), dict(label=lab, trace=tp, mismatch=b, script=(script_of or {}).get(lab) or guess_script(tp)))
         return res
 
     def add_sample_events(self, trace_path, n=3, pred=None):
@@ -349,6 +349,7 @@ class Check:
         if self.violations:
             for n, v in enumerate(self.violations[:5]):
                 rp = os.path.join(REPLAYS, "%s-%d.json" % (self.pid, n))
+                v["property"] = self.pid
                 with open(rp, "w") as f:
                     json.dump(v, f, indent=1, default=str)
                 print("VIOLATION property=%s replay=%s" % (self.pid, rp))
@@ -356,6 +357,61 @@ class Check:
             return 1
         print("OK property=%s tier=%s states=%d events=%d traces=%d wall=%.0fs" % (self.pid, self.tier, self.states, self.events, self.traces, wall))
         return 0
+
+
+def guess_script(trace_path):
+    """the script a trace was produced from, by the naming convention of the checks"""
+    base = re.sub(r"\.part\d+$", "", trace_path)
+    for cand in (base.replace(".trace.ndjson", ".script.ndjson"), os.path.join(os.path.dirname(base), "script.ndjson"),
+                 os.path.join(os.path.dirname(base), "master.script.ndjson")):
+        if cand != base and os.path.exists(cand):
+            return cand
+    return None
+
+
+def parse_label(lab):
+    """'v2-t!serial', 's64+t.ed_legacy', 's32+t.checked/kernels#1' -> (backend, tables, profile, features)"""
+    lab = lab.split("#")[0].split("/")[0].split("!")[0]
+    m = re.match(r"^([a-z0-9]+)([+-])t((?:\.[A-Za-z_0-9]+)*)$", lab)
+    if not m:
+        return None
+    parts = [x for x in m.group(3).split(".") if x]
+    profile = "checked" if "checked" in parts else "release"
+    feats = tuple(x for x in parts if x != "checked")
+    return m.group(1), m.group(2) == "+", profile, feats
+
+
+def replay(path):
+    """re-execute a recorded violation: rebuild the configuration from /repo's working tree, re-run the script prefix up to
+    the failing request, validate the new trace; exit 1 with the VIOLATION line if the mismatch is still there"""
+    v = json.load(open(path))
+    d = v.get("data", {})
+    lab, script, mm = d.get("label"), d.get("script"), d.get("mismatch", {})
+    if not (lab and script and os.path.exists(script)):
+        print("replay: this record has no script to re-run; recorded finding:\n" + json.dumps(v, indent=1)[:3000])
+        return 2
+    cfgp = parse_label(lab)
+    if not cfgp:
+        print("replay: cannot parse configuration label " + lab)
+        return 2
+    binp = build(*cfgp)
+    wd = os.path.join(WORK, "replay")
+    os.makedirs(wd, exist_ok=True)
+    upto = mm.get("i")
+    lines = [x for x in open(script) if x.strip()]
+    forced = [json.loads(x) for x in lines[:3] if '"force_backend"' in x]
+    prefix = lines if upto is None else lines[: int(upto) + len(forced)]
+    sp, tp = os.path.join(wd, "script.ndjson"), os.path.join(wd, "trace.ndjson")
+    open(sp, "w").writelines(prefix)
+    run_driver(binp, lab.split("#")[0].split("/")[0], sp, tp)
+    res = validate_trace(tp, os.path.join(wd, "tv"))
+    hit = [b for b in res["bad"] if b.get("op") == mm.get("op")]
+    if hit:
+        print("VIOLATION property=%s replay=%s" % (v.get("property", os.path.basename(path).split("-")[0]), path))
+        print("  reproduced: " + json.dumps(hit[0])[:600])
+        return 1
+    print("replay: the recorded mismatch does not occur on the current tree (%d events re-validated, %d other mismatches)" % (res["events"], len(res["bad"])))
+    return 0
 
 
 def finding_key(what, data):
